@@ -116,8 +116,8 @@ def inputs_sampled(rng, n, cand_range, max_ballots, config_fn, tied=False, ratio
 
 
 # ----------------------------------------------------------------------------- verdict -> property
-STEP_CLAUSES = {"NoRoundEnabled", "Who", "Tiebreak", "Bag", "Scores", "Remaining", "Label", "Threshold"}
-C01_CLAUSES = {"Partition", "ExactlySeats", "BoundedRounds", "Truncated", "OverElected", "NonTermination", "NoRoundEnabled"}
+STEP_CLAUSES = {"NoRoundEnabled", "Who", "Tiebreak", "Bag", "Scores", "Remaining", "Label", "Threshold", "RoundNumber"}
+C01_CLAUSES = {"Partition", "ExactlySeats", "BoundedRounds", "Truncated", "OverElected", "NonTermination", "NoRoundEnabled", "RoundNumber"}
 
 
 def family_property(rule):
